@@ -131,6 +131,7 @@ func (f *capFace) SendPacket(out dispatch.OutPkt) {
 
 // ---- one execution ---------------------------------------------------------------
 type fwdExec struct {
+	seenI   []fwdIn // Interests generated so far in this execution (generator state only)
 	th      *fw.Thread
 	pcs     *table.PitCsTree
 	t0      time.Time
@@ -236,7 +237,7 @@ func dnlList(m map[dnlKey]bool) []map[string]any {
 	return out
 }
 
-var fwdScanNames = []string{"/", "/a", "/a/b", "/a/b/c", "/a/b/c/e", "/d", "/d/f", "/localhost/x", "/localhost/x/y", "/h", "/r/x"}
+var fwdScanNames = []string{"/", "/a", "/a/b", "/a/b/c", "/a/b/c/e", "/d", "/d/f", "/localhost/x", "/localhost/x/y", "/h", "/r/x", fwdCollide}
 
 func (x *fwdExec) ticksOf(ns int64) int {
 	d := time.Unix(0, ns).Sub(x.t0)
@@ -565,8 +566,12 @@ func runFwdExecution(t *testing.T, w *traceWriter, capacity int, algo string, ne
 }
 
 // ---- seeded generator ----------------------------------------------------------------
-var fwdINames = []string{"/a", "/a/b", "/a/b/c", "/d", "/localhost/x", "/"}
-var fwdDNames = []string{"/", "/a", "/a/b", "/a/b/c", "/a/b/c/e", "/d", "/d/f", "/localhost/x", "/localhost/x/y"}
+// fwdCollide is ONE component whose bytes are those of "a", the 8-byte type number 8 and "b": a name hash that
+// concatenates (type, value) pairs without lengths cannot tell it from /a/b
+const fwdCollide = "/a%00%00%00%00%00%00%00%08b"
+
+var fwdINames = []string{"/a", "/a/b", "/a/b/c", "/d", "/localhost/x", "/", fwdCollide}
+var fwdDNames = []string{"/", "/a", "/a/b", "/a/b/c", "/a/b/c/e", "/d", "/d/f", "/localhost/x", "/localhost/x/y", fwdCollide, "/a/b"}
 
 func genFwdAct(rng *rand.Rand, x *fwdExec, i, nEv int) fwdAct {
 	switch k := rng.Intn(100); {
@@ -586,11 +591,30 @@ func genFwdAct(rng *rand.Rand, x *fwdExec, i, nEv int) fwdAct {
 		if rng.Intn(12) == 0 {
 			in.Nh = 1 + rng.Intn(6) // 6 = nonexistent
 		}
+		// correlated step: the key of an earlier Interest of this execution from (usually) another face with a fresh draw
+		// of the nonce -- aggregation, suppression, loops and cache hits on entries that already hold in-records
+		if len(x.seenI) > 0 && rng.Intn(3) == 0 {
+			p := x.seenI[rng.Intn(len(x.seenI))]
+			in.N, in.Cbp, in.Mbf, in.Hints = p.N, p.Cbp, p.Mbf, p.Hints
+		}
 		in.Dtok = in.F*10 + rng.Intn(2)
+		x.seenI = append(x.seenI, in)
 		return fwdAct{Ev: "I", I: in}
 	case k < 70:
 		in := fwdIn{F: fwdFaces[rng.Intn(len(fwdFaces))], N: strs(fwdDNames[rng.Intn(len(fwdDNames))]),
 			Fresh: []int{-1, 0, 1, 3}[rng.Intn(4)], Tk: -1}
+		if len(x.seenI) > 0 && rng.Intn(3) == 0 { // Data for (an extension of) a name that was asked for
+			p := x.seenI[rng.Intn(len(x.seenI))]
+			in.N = append([]string{}, p.N...)
+			if rng.Intn(3) == 0 { // an extension, within the closed name universe the dead-nonce scan covers
+				ext := append(append([]string{}, in.N...), []string{"b", "c", "e", "f", "y"}[rng.Intn(5)])
+				for _, u := range fwdScanNames {
+					if u == joinName(ext) {
+						in.N = ext
+					}
+				}
+			}
+		}
 		switch r := rng.Intn(6); {
 		case r == 0 && len(x.byTok) > 0:
 			in.Tk = 1 + rng.Intn(len(x.byTok))
@@ -643,7 +667,7 @@ func TestFwdGen(t *testing.T) {
 		if tr%2 == 1 {
 			algo = "hashtable"
 		}
-		total += runFwdExecution(t, w, rng.Intn(3), algo, func(x *fwdExec, i int) (fwdAct, bool) {
+		total += runFwdExecution(t, w, []int{0, 1, 2, 2, 6}[rng.Intn(5)], algo, func(x *fwdExec, i int) (fwdAct, bool) {
 			if i >= nEv {
 				return fwdAct{}, false
 			}
